@@ -527,6 +527,8 @@ pub struct GenKnobs {
     pub p_container: u32,
     pub p_annot: u32,
     pub p_doc: u32,
+    /// share of documents with very many imports / forward declarations / tie-producing members
+    pub p_heavy: u32,
 }
 
 impl GenKnobs {
@@ -544,12 +546,13 @@ impl GenKnobs {
             p_container: *rng.pick(&[0, 20, 50]),
             p_annot: *rng.pick(&[0, 15, 40]),
             p_doc: *rng.pick(&[0, 15, 40]),
+            p_heavy: *rng.pick(&[0, 0, 8, 30]),
         }
     }
 
     pub fn describe(&self) -> String {
         format!(
-            "hol={} mol={} imp<={} fwd<={} mem<={} amb={} unk={} blt={} rep={} cont={} ann={} doc={}",
+            "hol={} mol={} imp<={} fwd<={} mem<={} amb={} unk={} blt={} rep={} cont={} ann={} doc={} heavy={}",
             self.p_header_one_line,
             self.p_members_one_line,
             self.max_imports,
@@ -561,7 +564,8 @@ impl GenKnobs {
             self.p_repeat_import,
             self.p_container,
             self.p_annot,
-            self.p_doc
+            self.p_doc,
+            self.p_heavy
         )
     }
 }
@@ -854,8 +858,53 @@ pub fn gen_doc(
     kind: Kind,
     serial: u64,
 ) -> Doc {
-    let (imports, fwd) = gen_header(rng, u, k);
-    let members = gen_members(rng, u, k, kind, &imports, &fwd);
+    let heavy = rng.pct(k.p_heavy);
+    let (mut imports, mut fwd) = gen_header(rng, u, k);
+    let mut members = gen_members(rng, u, k, kind, &imports, &fwd);
+    if heavy {
+        // many hash-ordered warnings plus many pairs of diagnostics with the same start position
+        let ni = rng.range(6, 16);
+        for i in 0..ni {
+            imports.push(if rng.pct(70) {
+                format!("zz.U{i}")
+            } else {
+                rng.pick(&u.keys()).clone()
+            });
+        }
+        let nf = rng.range(3, 9);
+        for i in 0..nf {
+            fwd.push(if rng.pct(85) { format!("Fw{i}") } else { format!("Fw{}", rng.below(nf)) });
+        }
+        if kind == Kind::Interface {
+            let nm = rng.range(3, 8);
+            for mi in 0..nm {
+                let na = rng.range(1, 3);
+                let mut args = Vec::new();
+                for ai in 0..na {
+                    args.push(Arg {
+                        dir: if rng.pct(60) { Some("out".to_owned()) } else { None },
+                        ty: match rng.below(4) {
+                            0 => Ty::List(None),
+                            1 => Ty::Map(None),
+                            2 => Ty::Prim("int".to_owned()),
+                            _ => gen_type(rng, u, k, &imports, &fwd, 1),
+                        },
+                        name: Some(format!("h{ai}")),
+                        annots: vec![],
+                    });
+                }
+                members.push(Member::Method {
+                    oneway: rng.pct(70),
+                    ret: if rng.pct(70) { Ty::Void } else { Ty::Named("Nope".to_owned()) },
+                    name: format!("h{mi}"),
+                    args,
+                    code: None,
+                    annots: vec![],
+                    doc: None,
+                });
+            }
+        }
+    }
     Doc {
         pkg: pkg.to_owned(),
         imports,
